@@ -142,3 +142,25 @@ Proof.
   - intros y H. vm_compute in H. discriminate.
   - intros e H. vm_compute in H. inversion H; subst. vm_compute. reflexivity.
 Qed.
+
+(** the hypotheses of the malformed-input theorems are satisfiable *)
+Example malformed_request_example :
+  let data := [255; 104] in
+  str_dec data = inr [105; 110; 118; 97; 108; 105; 100; 32; 117; 116; 102; 45; 56; 32; 115; 101; 113; 117;
+                      101; 110; 99; 101; 32; 111; 102; 32; 49; 32; 98; 121; 116; 101; 115; 32; 102; 114; 111;
+                      109; 32; 105; 110; 100; 101; 120; 32; 48]   (* "invalid utf-8 sequence of 1 bytes from index 0" *)
+  /\ rs_status (run_on_server N u8_display bytes bytes str_dec str_enc KDeserialization [] [47; 102] demo_body
+                  (fun _ => RefRaw []) {| rq_data := data; rq_accept := None; rq_referer := None |}) = 500.
+Proof. split; vm_compute; reflexivity. Qed.
+
+Example malformed_response_example :
+  let res := {| rs_status := 404; rs_body := [110; 111; 112; 101]; rs_error_header := None;
+                rs_location := None; rs_redirect_header := false; rs_content_type := None |} in
+  exists msg, client_result N u8_parse bytes str_dec res = (Err (Std KDeserialization msg), []).
+Proof. eexists. vm_compute. reflexivity. Qed.
+
+Example undecodable_response_example :
+  let res := {| rs_status := 200; rs_body := [255]; rs_error_header := None;
+                rs_location := None; rs_redirect_header := false; rs_content_type := None |} in
+  ~ (400 <= rs_status res <= 599) /\ exists msg, str_dec (rs_body res) = inr msg.
+Proof. split; [cbn; lia|eexists; vm_compute; reflexivity]. Qed.
